@@ -109,52 +109,19 @@ Section Reader.
     rewrite firstn_app_2. simpl. apply app_nil_r.
   Qed.
 
-  Lemma written_has_crlf enc c : has_suffix (written_content enc c) crlf = true.
+  (** for EVERY leaf: what BODYSTRUCTURE announces is the length of what BODY[p] returns *)
+  Lemma leaf_size_agrees enc c : announced_size enc c = length c.
   Proof.
-    unfold written_content.
-    set (c' := if is_base64 enc && negb (already_wrapped c) then _ else c).
-    destruct (has_suffix c' crlf) eqn:E; [exact E | apply has_suffix_app_crlf].
+    unfold announced_size, written_content.
+    rewrite reader_inverts_writer by apply has_suffix_app_crlf.
+    now rewrite strip2_app_crlf.
   Qed.
 
-  Lemma leaf_size_agrees enc c :
-    classify_leaf enc c = None -> announced_size enc c = length c.
+  (** and the reader gives back the stored content itself *)
+  Lemma leaf_content_agrees enc c : reader_part (written_content enc c) = c.
   Proof.
-    unfold classify_leaf, announced_size.
-    destruct (str_eqb_spec (written_content enc c) (c ++ crlf)) as [E|_].
-    - intros _. rewrite E, reader_inverts_writer by apply has_suffix_app_crlf.
-      now rewrite strip2_app_crlf.
-    - destruct (is_base64 enc && negb (already_wrapped c)); discriminate.
-  Qed.
-
-  Lemma has_suffix_split c : has_suffix c crlf = true -> exists d, c = d ++ crlf.
-  Proof.
-    unfold has_suffix. intros H. apply has_prefix_spec in H. destruct H as [r H].
-    exists (rev r). apply (f_equal (@rev ascii)) in H.
-    rewrite rev_involutive, rev_app_distr, rev_involutive in H. exact H.
-  Qed.
-
-  (** without re-wrapping, the class TrailingCRLF is exactly "content ends in CRLF" *)
-  Lemma trailing_crlf_iff enc c :
-    is_base64 enc && negb (already_wrapped c) = false ->
-    (classify_leaf enc c = Some TrailingCRLF <-> has_suffix c crlf = true).
-  Proof.
-    intros B. unfold classify_leaf, written_content. rewrite B.
-    destruct (has_suffix c crlf) eqn:S.
-    - destruct (str_eqb_spec c (c ++ crlf)) as [E|_].
-      + apply (f_equal (@length ascii)) in E. rewrite app_length in E. simpl in E. lia.
-      + split; reflexivity.
-    - rewrite str_eqb_refl. split; discriminate.
-  Qed.
-
-  (** the exact form of the defect: announced 2 octets less than BODY[p] returns *)
-  Lemma trailing_crlf_law enc c :
-    is_base64 enc && negb (already_wrapped c) = false ->
-    has_suffix c crlf = true -> announced_size enc c + 2 = length c.
-  Proof.
-    intros B S. unfold announced_size, written_content. rewrite B, S.
-    rewrite reader_inverts_writer by exact S.
-    destruct (has_suffix_split c S) as [d ->].
-    rewrite strip2_app_crlf, app_length. reflexivity.
+    unfold written_content. rewrite reader_inverts_writer by apply has_suffix_app_crlf.
+    apply strip2_app_crlf.
   Qed.
 End Reader.
 
@@ -173,18 +140,25 @@ Proof. split; [vm_compute; discriminate | vm_compute; reflexivity]. Qed.
 Example old_whole_item_is_not_the_slice : w_raw <> slice_spec w_raw 0 3.
 Proof. vm_compute. discriminate. Qed.
 
-Lemma refuted_trailing_crlf :
-  forall reader_part, (forall w, has_suffix w crlf = true -> reader_part w = strip2 w) ->
-  exists enc c, classify_leaf enc c = Some TrailingCRLF /\ announced_size reader_part enc c <> length c.
-Proof.
-  intros rp H. exists (S_ "7bit"), w_leaf_crlf. split; [vm_compute; reflexivity|].
-  unfold announced_size. rewrite H by (vm_compute; reflexivity). vm_compute. discriminate.
-Qed.
+(** ---- the writer before the repairs (stand-alone, for regression examples):
+    CRLF appended only when absent; base64 text re-wrapped at 76 ---- *)
+Fixpoint old_wrap76 (fuel : nat) (s : str) : str :=
+  match fuel with
+  | O => []
+  | S f => match s with [] => [] | _ => firstn 76 s ++ crlf ++ old_wrap76 f (skipn 76 s) end
+  end.
+Definition old_written_content (base64 : bool) (content : str) : str :=
+  let content :=
+    if base64
+    then let raw := filter (fun c => negb (Ascii.eqb c CR) && negb (Ascii.eqb c LF)) content in
+         old_wrap76 (S (length raw)) raw
+    else content in
+  if has_suffix content crlf then content else content ++ crlf.
 
-Lemma refuted_rewrap :
-  forall reader_part, (forall w, has_suffix w crlf = true -> reader_part w = strip2 w) ->
-  exists enc c, classify_leaf enc c = Some Rewrap /\ announced_size reader_part enc c <> length c.
-Proof.
-  intros rp H. exists (S_ "base64"), w_b64. split; [vm_compute; reflexivity|].
-  unfold announced_size. rewrite H by (vm_compute; reflexivity). vm_compute. discriminate.
-Qed.
+Example old_trailing_crlf_announced_two_less :
+  length (strip2 (old_written_content false w_leaf_crlf)) + 2 = length w_leaf_crlf.
+Proof. vm_compute. reflexivity. Qed.
+
+Example old_rewrap_announced_another_size :
+  length (strip2 (old_written_content true w_b64)) = 122 /\ length w_b64 = 120.
+Proof. split; vm_compute; reflexivity. Qed.
